@@ -308,9 +308,11 @@ Definition scanl1 {A} (u : A -> A -> A) (l : list A) : list A :=
 Definition accumulate_axis0 {A} (u : A -> A -> A) (d : A) (n : nat) (rows : list (list A)) : list (list A) :=
   transpose d (List.length rows) (map (scanl1 u) (transpose d n rows)).
 
-(* np.min / np.max of a rank-1 array *)
-Definition np_extreme (u : num -> num -> num) (ns : list num) : num :=
-  match ns with [] => NI 0 | z :: zs' => fold_right u z zs' end.
+(* np.min / np.max of a rank-1 array.  NumPy defines np.min(a) as np.minimum.reduce(a, axis=None)
+   (numpy/_core/_methods.py: umr_minimum = um.minimum.reduce), i.e. for rank 1 the ufunc reduce of the very scalar
+   function the verb & uses; for rank >= 2 it reduces over ALL axes, which is why the shortcut is guarded by ndim == 1
+   and why `np.max` is not an admissible text in the compiler's table *)
+Definition np_extreme (u : num -> num -> num) (ns : list num) : num := fold1 u (NI 0) ns.
 
 Definition vnums (ns : list num) : val := VList (map vnum ns).
 Definition vints (zs : list Z) : val := VList (map VInt zs).
@@ -372,12 +374,39 @@ Definition is_zero_scalar (v : val) : bool :=
 Definition klong_div (a b : val) : res val :=
   if negb (is_list a) && is_zero_scalar b then Err E_UNDEF else ew2 n_div a b.
 
-(* `_has_zero_divisor(a)`: a flat array with a zero among a2..aN (object arrays holding lists: not modelled) *)
+(* `_has_zero_divisor(a)`:  a.ndim == 1 and bool((a[1:] == 0).any()), False when that raises.
+   On a numeric vector: some divisor a2..aN is zero.  On an object array the comparison with 0 gives, per element,
+   a bool (a number or a string) or an array (a list element); `.any()` is logical_or.reduce on objects, i.e.
+   Python's `x or y` from the left, which asks an array for its truth and raises unless it has exactly one element. *)
+Inductive zc := ZB (b : bool) | ZA (t : option bool).
+Definition zcmp (v : val) : zc :=
+  match v with
+  | VList [e] => ZA (match num_of e with Some n => Some (is_zero_num n) | None => None end)
+  | VList _ => ZA None
+  | _ => ZB (is_zero_scalar v)
+  end.
+Definition zc_truth (c : zc) : option bool := match c with ZB b => Some b | ZA t => t end.
+Fixpoint zfold (acc : zc) (l : list zc) : option zc :=
+  match l with
+  | [] => Some acc
+  | c :: l' =>
+      match zc_truth acc with
+      | Some true => zfold acc l'
+      | Some false => zfold c l'
+      | None => None
+      end
+  end.
+Definition zero_divisor_obj (tail : list val) : bool :=
+  match zfold (ZB false) (map zcmp tail) with
+  | Some acc => match zc_truth acc with Some b => b | None => false end
+  | None => false
+  end.
+
 Definition zero_divisor (xs : list val) : bool :=
   match classify xs with
   | NumVec ns => existsb is_zero_num (tl ns)
   | NumMat _ _ => false
-  | Other => if existsb is_list xs then false else existsb is_zero_scalar (tl xs)
+  | Other => zero_divisor_obj (tl xs)
   end.
 
 (* the scalar function of a Klong operator verb on numbers *)
@@ -606,27 +635,40 @@ Definition isinstance_of (p q : val) : bool :=
   end.
 Definition conv_eq (p q : val) : bool := isinstance_of p q && kg_equal p q.
 
-(* Python truth of the predicate's result in `while klong.eval(...)`: bool() of a number, a str, a dict, and
-   of a NumPy array, which raises ValueError unless the array has exactly one element *)
-Fixpoint truthy (v : val) : res bool :=
+(* Klong truth (kg_is_true, shared with the conditional): 0, 0.0, [] and "" are false, everything else is true *)
+Definition ktruth (v : val) : bool :=
+  match v with
+  | VInt z => negb (Z.eqb z 0)
+  | VReal f => negb (SFeqb f (S754_zero false))
+  | VStr [] => false
+  | VList [] => false
+  | _ => true
+  end.
+
+(* Python truth of a value (what `while klong.eval(...)` took before the repair): bool() of a number, a str, a dict,
+   and of a NumPy array, which raises ValueError unless the array has exactly one element *)
+Fixpoint py_truth (v : val) : res bool :=
   match v with
   | VInt z => Ok (negb (Z.eqb z 0))
   | VReal f => Ok (negb (SFeqb f (S754_zero false)))
   | VChar _ => Ok true
   | VStr s => Ok (negb (Nat.eqb (List.length s) 0))
   | VDict kvs => Ok (negb (Nat.eqb (List.length kvs) 0))
-  | VList [x] => truthy x
+  | VList [x] => py_truth x
   | VList _ => Err E_TYPE
   end.
 
-(* the source text of the loop tests that `truthy` models *)
-Definition while_test_model : string := "klong.eval(KGCall(a, b, arity=1))".
+(* the truth test of the While / Scan-While loops; the flag is regenerated from the source: true iff both loops
+   test kg_is_true(<the evaluated predicate>, backend) and kg_is_true is the Klong-truth expression *)
+Definition truthy (klong_truth : bool) (v : val) : res bool :=
+  if klong_truth then Ok (ktruth v) else py_truth v.
 
 (* ------------------------------------------------------------------ the adverbs *)
 Section Adverbs.
   Variable S : Type.
   Notation M := (M S).
   Variable over_tbl scan_tbl : table.
+  Variable klong_truth : bool.
 
   (* eval_adverb_each *)
   Definition m_each (f : val -> M val) (a : val) : M val :=
@@ -784,7 +826,7 @@ Section Adverbs.
     | O => nofuel
     | Datatypes.S k =>
         bind (p b) (fun t =>
-        match truthy t with
+        match truthy klong_truth t with
         | Ok true => bind (f b) (fun b' => while_loop k p f b')
         | Ok false => ret b
         | Err e => fail e
@@ -798,7 +840,7 @@ Section Adverbs.
     | O => nofuel
     | Datatypes.S k =>
         bind (p b) (fun t =>
-        match truthy t with
+        match truthy klong_truth t with
         | Ok true => bind (f b) (fun b' => scan_while_loop k p f b' (r ++ [b']))
         | Ok false => ret (VList (removelast r))
         | Err e => fail e
@@ -884,10 +926,10 @@ Arguments converge_loop {S} fuel f x xx.
 Arguments m_converge {S} fuel f a.
 Arguments scan_conv_loop {S} fuel f x xx r.
 Arguments m_scan_converging {S} fuel f a.
-Arguments while_loop {S} fuel p f b.
-Arguments scan_while_loop {S} fuel p f b r.
-Arguments m_while {S} fuel p f b.
-Arguments m_scan_while {S} fuel p f b.
+Arguments while_loop {S} klong_truth fuel p f b.
+Arguments scan_while_loop {S} klong_truth fuel p f b r.
+Arguments m_while {S} klong_truth fuel p f b.
+Arguments m_scan_while {S} klong_truth fuel p f b.
 Arguments adverb1 {S} over_tbl scan_tbl fuel s op v.
 Arguments adverb2 {S} fuel s v.
 Arguments chain_rest {S} over_tbl scan_tbl fuel op g advs.
